@@ -6,6 +6,7 @@ from vlib import Case
 
 ID = 'C18'
 TARGETS = ['SmppVerif.Props.C18']
+THOROUGH_ROUNDS = 6
 RULE = ('token bucket: dyadic rates 1/8..64 x arrival patterns (bursts, steady just above/below the rate, idle gaps, '
         'retry sleeps of exactly 1 s and longer) with every limit() call driven on a virtual clock; throttle handler: '
         'response sequences around sample_size and the percentage threshold, allow_request before/at/after the window '
